@@ -88,17 +88,28 @@ Definition obj_f (o : gobj) (x : list A) (T : A) : res fval :=
 Definition set_gpsis (a : gargs) (g : list (list A)) : gargs :=
   mkArgs (a_inter a) g (a_mask a) (a_qs a) (a_rs a) (a_Qs a) (a_chemgroups a) (a_cQfs a) (a_index a).
 
+Definition set_inter (a : gargs) (i : I) : gargs :=
+  mkArgs i (a_gpsis a) (a_mask a) (a_qs a) (a_rs a) (a_Qs a) (a_chemgroups a) (a_cQfs a) (a_index a).
+
+(* obj.activity_coefficients(v, T): result, buffer afterwards, interaction table afterwards *)
+Definition mfun := list A -> A -> I -> list (list A) -> list (list bool) -> list A -> list A -> list A ->
+                   list (list A) -> list (list A) -> list A * list (list A) * I.
+Definition m_apply (m : mfun) (v : list A) (T : A) (a : gargs) : list A * list (list A) * I :=
+  m v T (a_inter a) (a_gpsis a) (a_mask a) (a_qs a) (a_rs a) (a_Qs a) (a_chemgroups a) (a_cQfs a).
+
 Inductive hop :=
 | HCall (r : nat) (alias : bool) (T : A)   (* obj(arrays[r], T); alias = passed as the float64 array itself *)
 | HF (r : nat) (T : A)                     (* obj.f(arrays[r], T, *obj.args) *)
+| HAct (v : list A) (T : A)                (* obj.activity_coefficients(v, T) on a sub-system composition v *)
 | HSet (r : nat) (v : list A)              (* caller: arrays[r][:] = v *)
 | HSetRes (k : nat) (v : list A).          (* caller: rewrites in place the k-th array a call has returned *)
 
 (* the caller's composition arrays, the arrays returned so far (each `gamma = np.ones(x.size)` is a fresh
-   allocation, so a returned array is referenced by the caller only), the object *)
+   allocation, so a returned array is referenced by the caller only), the object (its _group_psis buffer and
+   its _interactions table are the per-object state) *)
 Record hstate := mkH { h_arrays : list (list A); h_results : list (list A); h_args : gargs }.
 
-Definition hstep (f : wfun) (s : hstate) (o : hop) : hstate * option (res (list A)) :=
+Definition hstep (f : wfun) (m : mfun) (s : hstate) (o : hop) : hstate * option (res (list A)) :=
   match o with
   | HSet r v => (mkH (upd (h_arrays s) r v) (h_results s) (h_args s), None)
   | HSetRes k v => (mkH (h_arrays s) (upd (h_results s) k v) (h_args s), None)
@@ -116,20 +127,30 @@ Definition hstep (f : wfun) (s : hstate) (o : hop) : hstate * option (res (list 
                  Some (Ok (w_gamma w)))
       | Err e => (s, Some (Err e))
       end
+  | HAct v T =>
+      let '(g, gp, inter') := m_apply m v T (h_args s) in
+      (mkH (h_arrays s) (h_results s ++ [g]) (set_inter (set_gpsis (h_args s) gp) inter'), Some (Ok g))
   end.
 
-Fixpoint run_hist (f : wfun) (s : hstate) (ops : list hop) : hstate * list (option (res (list A))) :=
+Fixpoint run_hist (f : wfun) (m : mfun) (s : hstate) (ops : list hop) : hstate * list (option (res (list A))) :=
   match ops with
   | [] => (s, [])
-  | o :: t => let '(s1, out) := hstep f s o in
-              let '(s2, outs) := run_hist f s1 t in (s2, out :: outs)
+  | o :: t => let '(s1, out) := hstep f m s o in
+              let '(s2, outs) := run_hist f m s1 t in (s2, out :: outs)
   end.
 
 (* what a state-free object answers: a function of the current content of the array and T only;
-   the specification threads only what the caller owns (its arrays and the results it was handed) *)
+   the specification threads only what the caller owns (its arrays and the results it was handed).
+   act is the state-free value of the object form: the kernel on the masked psis of this T *)
 Definition gamma_of (f : wfun) (a : gargs) (x : list A) (T : A) : res (list A) :=
   match f_apply f x T a with Ok w => Ok (w_gamma w) | Err e => Err e end.
-Definition spec_step (f : wfun) (a : gargs) (st : list (list A) * list (list A)) (o : hop)
+Definition act_spec (psi : A -> I -> list (list A)) (lgc : list A -> list A -> list A -> list A)
+    (gac : list A -> list (list A) -> list A -> list A -> list (list A) -> list (list A) -> list (list A) -> list A)
+    (a : gargs) (v : list A) (T : A) : list A :=
+  let psis := psi T (a_inter a) in
+  gac v (a_chemgroups a) (lgc (a_qs a) (a_rs a) v) (a_Qs a) psis (a_cQfs a) (fill_group_psis K psis (a_mask a)).
+Definition spec_step (f : wfun) (act : gargs -> list A -> A -> list A) (a : gargs)
+    (st : list (list A) * list (list A)) (o : hop)
   : (list (list A) * list (list A)) * option (res (list A)) :=
   match o with
   | HSet r v => ((upd (fst st) r v, snd st), None)
@@ -137,13 +158,15 @@ Definition spec_step (f : wfun) (a : gargs) (st : list (list A) * list (list A))
   | HCall r _ T | HF r T =>
       let g := gamma_of f a (nth r (fst st) []) T in
       ((fst st, match g with Ok v => snd st ++ [v] | Err _ => snd st end), Some g)
+  | HAct v T => ((fst st, snd st ++ [act a v T]), Some (Ok (act a v T)))
   end.
-Fixpoint spec_hist (f : wfun) (a : gargs) (st : list (list A) * list (list A)) (ops : list hop)
+Fixpoint spec_hist (f : wfun) (act : gargs -> list A -> A -> list A) (a : gargs)
+    (st : list (list A) * list (list A)) (ops : list hop)
   : (list (list A) * list (list A)) * list (option (res (list A))) :=
   match ops with
   | [] => (st, [])
-  | o :: t => let '(st1, out) := spec_step f a st o in
-              let '(st2, outs) := spec_hist f a st1 t in (st2, out :: outs)
+  | o :: t => let '(st1, out) := spec_step f act a st o in
+              let '(st2, outs) := spec_hist f act a st1 t in (st2, out :: outs)
   end.
 
 (* ---- histories on the ideal object (IdealActivityCoefficients, also the fallback of __new__):
@@ -165,7 +188,7 @@ End Classes.
 Arguments mkArgs {A I}. Arguments mkC {A}. Arguments c_gamma {A}. Arguments c_x {A}. Arguments c_gpsis {A}.
 Arguments XFloat64 {A}. Arguments XOther {A}. Arguments ObjIdeal {A I}. Arguments ObjGroup {A I}.
 Arguments FScalar {A}. Arguments FArray {A}.
-Arguments HCall {A}. Arguments HF {A}. Arguments HSet {A}. Arguments HSetRes {A}. Arguments mkH {A I}. Arguments h_arrays {A I}.
+Arguments HCall {A}. Arguments HF {A}. Arguments HAct {A}. Arguments HSet {A}. Arguments HSetRes {A}. Arguments mkH {A I}. Arguments h_arrays {A I}.
 Arguments h_results {A I}. Arguments h_args {A I}. Arguments ICall {A}. Arguments IF_ {A}. Arguments ISetRes {A}.
 
 (* ================= checkers for the correspondence (carrier option Q) ================= *)
@@ -226,21 +249,23 @@ Definition hobs_matches (r : option (res (list (option Q)))) (o : hobs) : bool :
   | _, _ => false
   end.
 Inductive qop := QCall (r : nat) (alias : bool) (T : Q) | QF (r : nat) (T : Q) | QSet (r : nat) (v : vec)
-  | QSetRes (k : nat) (v : vec).
+  | QSetRes (k : nat) (v : vec) | QAct (v : vec) (T : Q).
 Definition lift_op (o : qop) : hop (A:=option Q) :=
   match o with
   | QCall r al T => HCall r al (Some T)
   | QF r T => HF r (Some T)
   | QSet r v => HSet r (some_vec v)
   | QSetRes k v => HSetRes k (some_vec v)
+  | QAct v T => HAct (some_vec v) (Some T)
   end.
-Definition chk_hist {I} (f : wfun (A:=option Q) (I:=I)) (a : gargs (A:=option Q) (I:=I)) (arrays : list vec)
+Definition chk_hist {I} (f : wfun (A:=option Q) (I:=I)) (m : mfun (A:=option Q) (I:=I))
+    (inter_eqb : I -> bool) (a : gargs (A:=option Q) (I:=I)) (arrays : list vec)
     (ops : list qop) (outs : list hobs) (arrays_after results_after : list vec) (gpsis_after : list vec)
     (any_zerodiv : bool) : bool :=
-  let '(s, r) := run_hist f (mkH (map some_vec arrays) [] a) (map lift_op ops) in
+  let '(s, r) := run_hist f m (mkH (map some_vec arrays) [] a) (map lift_op ops) in
   list_eqb2 hobs_matches r outs &&
   (any_zerodiv || (list_eqb2 ov_eqb (h_arrays s) arrays_after && list_eqb2 ov_eqb (h_results s) results_after &&
-                   om_eqb (a_gpsis (h_args s)) gpsis_after)).
+                   om_eqb (a_gpsis (h_args s)) gpsis_after && inter_eqb (a_inter (h_args s)))).
 (* ideal object: outputs (arrays of ones / scalar one / nothing) and the results the caller holds *)
 Inductive qiop := QICall (n : nat) | QIF | QISetRes (k : nat) (v : vec).
 Definition lift_iop (o : qiop) : iop (A:=Q) :=
@@ -253,12 +278,15 @@ Definition iobs_matches (r : option (fval (A:=Q))) (o : iobs) : bool :=
   | Some (FScalar g), IOScalar v => qeqb g v
   | _, _ => false
   end.
+(* the interaction table the object holds after the history (observed) *)
 Definition chk_hist_unifac (s : list standin) (inter : list vec) (gpsis : list vec) (mask : list (list bool))
-    (qs rs Qs : vec) (chemgroups cQfs : list vec) (index : list nat) :=
-  chk_hist (gamma_UNIFAC (KS s)) (mk_oargs (some_mat inter) gpsis mask qs rs Qs chemgroups cQfs index).
+    (qs rs Qs : vec) (chemgroups cQfs : list vec) (index : list nat) (inter_after : list vec) :=
+  chk_hist (gamma_UNIFAC (KS s)) (activity_coefficients_UNIFAC (KS s)) (fun i => om_eqb i inter_after)
+           (mk_oargs (some_mat inter) gpsis mask qs rs Qs chemgroups cQfs index).
 Definition chk_hist_modified (s : list standin) (inter : list (list vec)) (gpsis : list vec) (mask : list (list bool))
-    (qs rs Qs : vec) (chemgroups cQfs : list vec) (index : list nat) :=
-  chk_hist (gamma_modified_UNIFAC (KS s)) (mk_oargs (some_mat3 inter) gpsis mask qs rs Qs chemgroups cQfs index).
+    (qs rs Qs : vec) (chemgroups cQfs : list vec) (index : list nat) (inter_after : list (list vec)) :=
+  chk_hist (gamma_modified_UNIFAC (KS s)) (activity_coefficients_modified (KS s)) (fun i => list_eqb2 om_eqb i inter_after)
+           (mk_oargs (some_mat3 inter) gpsis mask qs rs Qs chemgroups cQfs index).
 
 (* the bare kernels (py_func run directly) *)
 Definition chk_vec (r : list (option Q)) (o : option vec) : bool :=
